@@ -700,23 +700,28 @@ impl World {
         }
         // ---- database family: last event vs final table contents; every changed key notified after its last change
         if self.pending.is_empty() {
+            for (k, (c, _)) in &last {
+                if m_keys.contains(k) {
+                    continue;
+                }
+                let absent = !rows.contains_key(*k);
+                if (*c == 'd') != absent {
+                    fails.push(format!(
+                        "stale notification: the last event for row {k} says {} but the row {}",
+                        if *c == 'd' { "deleted" } else { "updated" },
+                        if absent { "no longer exists" } else { "exists" }
+                    ));
+                }
+            }
             for (k, at) in &self.last_change {
                 if m_keys.contains(k) || *at < attached_at {
                     continue;
                 }
                 match last.get(k) {
                     None => fails.push(format!("row {k} of table t was changed by a committed transaction after the listener attached and never notified")),
-                    Some((c, i)) => {
+                    Some((_, i)) => {
                         if i < at {
                             fails.push(format!("row {k}: no notification after its last committed change"));
-                        }
-                        let absent = !rows.contains_key(k);
-                        if (*c == 'd') != absent {
-                            fails.push(format!(
-                                "stale notification: the last event for row {k} says {} but the row {}",
-                                if *c == 'd' { "deleted" } else { "updated" },
-                                if absent { "no longer exists" } else { "exists" }
-                            ));
                         }
                     }
                 }
@@ -836,8 +841,12 @@ fn gen_db_case(rng: &mut Rng, c: Consts, dl: u64) -> Vec<String> {
     let mut peer_versions: Vec<(u64, Vec<(u64, u64)>)> = vec![];
     let mut unapplied: Vec<u64> = vec![];
     let remote = rng.chance(1, 2);
-    // before the listener attaches
-    if rng.chance(1, 5) {
+    // before the listener attaches.  Such rows are not in cl_cache, and `process_multiple_changes` hands the
+    // first change of every later changeset of a batch to match_changes even when it lost the merge (reported
+    // finding `remote-batch-spurious-candidate`, pinned in corpus/C14): in these cases the peer's versions are
+    // therefore applied one per call, so the generator stays out of that region.
+    let pre = rng.chance(1, 5);
+    if pre {
         for _ in 0..rng.range(1, 3) {
             let (s, _) = gen_tx(rng, &mut a, &keys, &mut val);
             ops.push(format!("w {s}"));
@@ -885,14 +894,14 @@ fn gen_db_case(rng: &mut Rng, c: Consts, dl: u64) -> Vec<String> {
             }
             17 | 18 if remote && !unapplied.is_empty() => {
                 // a subset of the peer's versions, in any order, sometimes one that was applied before
-                let mut pickn = rng.range(1, unapplied.len() as u64) as usize;
+                let mut pickn = if pre { 1 } else { rng.range(1, unapplied.len() as u64) as usize };
                 let mut vs = vec![];
                 rng.shuffle(&mut unapplied);
                 while pickn > 0 {
                     vs.push(unapplied.pop().unwrap());
                     pickn -= 1;
                 }
-                if rng.chance(1, 6) && !peer_versions.is_empty() {
+                if !pre && rng.chance(1, 6) && !peer_versions.is_empty() {
                     vs.push(rng.pick(&peer_versions).0);
                 }
                 for v in &vs {
@@ -920,7 +929,13 @@ fn gen_db_case(rng: &mut Rng, c: Consts, dl: u64) -> Vec<String> {
     }
     if remote && !unapplied.is_empty() && rng.chance(2, 3) {
         rng.shuffle(&mut unapplied);
-        ops.push(format!("r {}", unapplied.iter().map(|v| v.to_string()).collect::<Vec<_>>().join(",")));
+        if pre {
+            for v in &unapplied {
+                ops.push(format!("r {v}"));
+            }
+        } else {
+            ops.push(format!("r {}", unapplied.iter().map(|v| v.to_string()).collect::<Vec<_>>().join(",")));
+        }
     }
     if !synced {
         ops.push(if first >= dl { "drain".into() } else { "force".into() });
